@@ -1,5 +1,78 @@
+import OpusModel.Laplace
 import Driver.Util
-/- Suite stub — replaced by the owner of this suite. -/
+/- Suite `laplace`: celt/laplace.c at the interval level (the range coder is stubbed in the harness).
+
+   ops   enc fs decay value       → `fl= fh= value=` handed to ec_encode_bin(…,15) and the clamped *value
+         dec fs decay fm          → `val= fl= fh=`: return value and the ec_dec_update interval for fm
+         decall fs decay          → hash over fm = 0..32767 of (val, fl, fh), and the number of symbols
+         encall fs decay lo hi    → hash over value = lo..hi of (fl, fh, value')
+         p0enc p0 decay value     → ICDFs and symbols ec_laplace_encode_p0 hands to ec_enc_icdf16
+         p0dec p0 decay s v1,v2,… → value ec_laplace_decode_p0 returns when ec_dec_icdf16 answers s, v1, …  -/
 namespace Driver.SuiteLaplace
-def handle (_ : List String) : String := "bad-op"
+open Opus Opus.Laplace Driver
+
+def mix (h : UInt64) (v : Int) : UInt64 :=
+  let u : UInt64 := if v ≥ 0 then v.toNat.toUInt64 else 0 - (-v).toNat.toUInt64
+  (h ^^^ u) * 0x100000001b3
+
+def hex64 (h : UInt64) : String :=
+  let ds := Nat.toDigits 16 h.toNat
+  String.ofList (List.replicate (16 - ds.length) '0' ++ ds)
+
+/-- fold over fm = start, start+1, …; counts the positions where the decoded interval changes. -/
+def decAll (fs decay : Nat) : Nat → Nat → UInt64 → Nat → Nat → UInt64 × Nat
+  | 0, _, h, _, syms => (h, syms)
+  | cnt + 1, fm, h, lastFl, syms =>
+    match decode fm fs decay with
+    | .ok (v, fl, fh) =>
+      let h := mix (mix (mix h v) fl) fh
+      decAll fs decay cnt (fm + 1) h fl (if fm = 0 ∨ fl ≠ lastFl then syms + 1 else syms)
+    | _ => decAll fs decay cnt (fm + 1) (mix h (-1)) lastFl syms
+
+def encAll (fs decay : Nat) : Nat → Int → UInt64 → UInt64
+  | 0, _, h => h
+  | cnt + 1, v, h =>
+    let h := match encode v fs decay with
+      | .ok (fl, fh, v') => mix (mix (mix h fl) fh) v'
+      | _ => mix h (-1)
+    encAll fs decay cnt (v + 1) h
+
+def handle : List String → String
+  | ["enc", fs, decay, v] =>
+    match parseNat fs, parseNat decay, parseInt v with
+    | some fs, some decay, some v => resStr (fun r => s!"fl={r.1} fh={r.2.1} value={r.2.2}") (encode v fs decay)
+    | _, _, _ => "bad-op"
+  | ["dec", fs, decay, fm] =>
+    match parseNat fs, parseNat decay, parseNat fm with
+    | some fs, some decay, some fm => resStr (fun r => s!"val={r.1} fl={r.2.1} fh={r.2.2}") (decode fm fs decay)
+    | _, _, _ => "bad-op"
+  | ["decall", fs, decay] =>
+    match parseNat fs, parseNat decay with
+    | some fs, some decay =>
+      let r := decAll fs decay 32768 0 0xcbf29ce484222325 0 0
+      s!"h={hex64 r.1} syms={r.2}"
+    | _, _ => "bad-op"
+  | ["encall", fs, decay, lo, hi] =>
+    match parseNat fs, parseNat decay, parseInt lo, parseInt hi with
+    | some fs, some decay, some lo, some hi =>
+      s!"h={hex64 (encAll fs decay (hi - lo + 1).toNat lo 0xcbf29ce484222325)}"
+    | _, _, _, _ => "bad-op"
+  | ["p0enc", p0, decay, v] =>
+    match parseNat p0, parseNat decay, parseInt v with
+    | some p0, some decay, some v =>
+      let r := encodeP0 v
+      let mag := if v = 0 then "-" else natList (magIcdf decay)
+      s!"sign={natList (signIcdf p0)} s={r.1} mag={mag} syms={if r.2.isEmpty then "-" else natList r.2}"
+    | _, _, _ => "bad-op"
+  | ["p0dec", p0, decay, s, vs] =>
+    match parseNat p0, parseNat decay, parseNat s, parseNatList vs with
+    | some p0, some decay, some s, some vs =>
+      match decodeP0 s vs with
+      | some (v, rest) =>
+        let mag := if s = 0 then "-" else natList (magIcdf decay)
+        s!"value={v} used={vs.length - rest.length} sign={natList (signIcdf p0)} mag={mag}"
+      | none => "OOB"
+    | _, _, _, _ => "bad-op"
+  | _ => "bad-op"
+
 end Driver.SuiteLaplace
